@@ -187,6 +187,7 @@ extern int hx_in_lib;            /* >0 while inside a libhtp API call (allocator
 #define HX_WORK_B 60000u          /* constant term of the per-call bound (one-off set-up work such as inflateInit) */
 extern volatile uint64_t hx_work; /* cost flavour: basic blocks executed in libhtp + bytes/16 moved by bulk primitives */
 extern long hx_alloc_seq;        /* allocations made inside libhtp in this execution           */
+extern int hx_zlive;             /* zlib inflate streams opened inside libhtp and not closed yet */
 extern int64_t hx_live_bytes;    /* live bytes allocated inside libhtp                         */
 void hx_fault_arm(int k);          /* outside hx_run(): the k-th allocation made with hx_in_lib == 1 fails (0 = none); resets hx_alloc_seq */
 int  hx_fault_fired_get(void);
